@@ -46,7 +46,10 @@ def scenario(draw) -> Dict[str, Any]:
         services.append({'host': draw(st.integers(0, n_hosts - 1)), 'type': ti,
                          'label': draw(st.sampled_from(['svc', 'Svc', 'My Device', 'dotted.name'])) + str(i),
                          'addrs': draw(st.sampled_from([['v4'], ['v6'], ['v4', 'v6']])), 'port': 8000 + i,
-                         'props': draw(st.sampled_from(['', '0161', '0361623d']))})
+                         'props': draw(st.sampled_from(['', '0161', '0361623d'])),
+                         # SRV and address records normally live 120 s; a short host TTL lets them expire in peer caches (purged every
+                         # 10 s) within the scenario, so later lookups have to ask again
+                         'host_ttl': draw(st.sampled_from([120, 120, 120, 10]))})
     browsers = [{'host': draw(st.integers(0, n_hosts - 1)), 'types': draw(st.lists(st.integers(0, 2), min_size=1, max_size=3, unique=True).map(sorted)),
                  'at': draw(st.one_of(st.sampled_from([0, 0, 500, 1000, 5000]), st.integers(0, 30000))),
                  'qtype': draw(st.sampled_from([None, None, None, 'QM', 'QU']))}
@@ -88,7 +91,7 @@ def scenario(draw) -> Dict[str, Any]:
             services[(k + 1) % n_svc]['host'] = services[k]['host']
         if not any(i != k and sv['host'] == services[k]['host'] for i, sv in enumerate(services)):
             services.append({'host': services[k]['host'], 'type': draw(st.integers(0, 2)), 'label': 'sibling' + str(n_svc),
-                             'addrs': list(services[k]['addrs']), 'port': 8000 + n_svc, 'props': ''})
+                             'addrs': list(services[k]['addrs']), 'port': 8000 + n_svc, 'props': '', 'host_ttl': 120})
             ops.append({'t': 0, 'op': 'register', 'svc': n_svc})
         t_reg = next(o['t'] for o in ops if o['op'] == 'register' and o['svc'] == k)
         t1 = t_reg + draw(st.integers(4000, 12000))
@@ -124,13 +127,13 @@ def desc_of(s: Dict[str, Any], version: Dict[str, Any]) -> Dict[str, Any]:
     if version.get('shared'):
         addrs = [host_ip(s['host'], f) for f in version['shared']]
         return {'type': t, 'name': f"{s['label']}.{t}", 'port': version['port'], 'server': f"machine{s['host']}.local.",
-                'addrs': addrs, 'props': version['props']}
+                'addrs': addrs, 'props': version['props'], 'host_ttl': s.get('host_ttl', 120)}
     addrs = [host_ip(s['host'], f) for f in version['addrs']]
     # one host name per service: a lookup returns every address record of the host name, so services that share a host
     # name but advertise different address sets would make "the advertised addresses" ambiguous
     server = ''.join(ch for ch in s['label'].lower() if ch.isalnum()) + f"-h{s['host']}.local."
     return {'type': t, 'name': f"{s['label']}.{t}", 'port': version['port'], 'server': server, 'addrs': addrs,
-            'props': version['props']}
+            'props': version['props'], 'host_ttl': s.get('host_ttl', 120)}
 
 
 class Run:
